@@ -17,9 +17,26 @@ CLAIMS = {
         'note': NOTE_COMMON,
         'technique': 'Lean 4 proof (bv_omega over BitVec) on translator-generated defs + differential replay',
     },
+    'C19': {
+        'text': 'Timer laws at component level. Proved in Lean: RTO clamp [RTO.Min, configured max] for every sample/reset sequence and the '
+                'doubling/capping of the back-off, both on arithmetic regenerated from rtx_timer.go by the translator (over Rat); the rtxTimer and '
+                'ackTimer automata with the Go runtime timer as environment (Stop may lose the race, callbacks run in any order): pending-counter '
+                'invariant, stale expiries absorbed, nothing reaches the observer after stop/close, nRtos counts real expiries, failure exactly on '
+                'expiry maxRetrans+1 and never with maxRetrans=0, ack timer one shot at start+200 ms and not pushed back by a restart. Decided on '
+                'translator facts: T1-init/T1-cookie get maxInitRetrans=8, T2/T3/reconfig get 0; both data-path setNewRTT calls are guarded by '
+                'nSent == 1; every rtxTimer.start passes rtoMgr.getRTO(). Correspondence: rtoManager bit for bit on float64 sample sequences; real '
+                'rtxTimer/ackTimer under testing/synctest with scripted start/stop/close/sleep and held-back callbacks, callbacks compared with '
+                'virtual timestamps; property predicates evaluated on the implementation outputs. '
+                'NOT covered here (pending, association level): SACK sent at once on gap/duplicate and within 200 ms of every DATA packet '
+                '(only the ack-timer law it rests on: C19_ack_delay_bound_partial), and the heartbeat echo / round-trip sample (DESIGN D1, D2, D11 live there).',
+        'note': NOTE_COMMON + ' float64 rounding is outside the theorems (Rat). Timer theorems assume fewer than 255 fired callbacks wait for the timer mutex at once '
+                '(pending is a uint8). timeout() is modelled as atomic including the observer call (in Go the observer runs just after the mutex is released). '
+                'Karn and retry-budget site facts are syntactic (guard text / argument text at the call sites).',
+        'technique': 'Lean 4 proof (invariants + induction over op lists; linear arithmetic over Rat) on translator-generated defs and facts + differential replay under virtual time',
+    },
 }
 
 _PENDING = 'check not built yet in this round (planned, see DESIGN.md §5/§8); not claimed until its theorems and correspondence run'
-NOT_APPLICABLE = {p: _PENDING for p in ['C05', 'C01', 'C02', 'C03', 'C04', 'C06', 'C07', 'C08', 'C09', 'C10', 'C11', 'C12', 'C13', 'C14', 'C15', 'C17', 'C18', 'C19', 'C20']}
+NOT_APPLICABLE = {p: _PENDING for p in ['C05', 'C01', 'C02', 'C03', 'C04', 'C06', 'C07', 'C08', 'C09', 'C10', 'C11', 'C12', 'C13', 'C14', 'C15', 'C17', 'C18', 'C20']}
 
 NOTES = 'Family of technique: machine-checked proof in Lean 4. See DESIGN.md. Known findings: known_findings.jsonl.'
